@@ -72,8 +72,8 @@ type clientStream struct {
 }
 
 // SetSingleRequest tells the stream that its RPC has a single request
-// message. SendMsg then does not report that the stream is already over, as
-// grpc-go does not for such RPCs: the generated code gives the caller no
+// message. SendMsg then does not report that the peer has already finished
+// the stream, as grpc-go does not for such RPCs: the generated code gives the caller no
 // stream at all when SendMsg fails, and with it no way to read the status,
 // the headers and the trailers the peer finished the call with; RecvMsg
 // reports them. Call it before the stream is used.
@@ -81,10 +81,17 @@ func (cs *clientStream) SetSingleRequest() {
 	cs.singleRequest = true
 }
 
-// overErr is what SendMsg returns when the stream is over already.
+// overErr is what SendMsg returns when the stream is over already: for a
+// single-request RPC which the peer has finished (its trailer is here),
+// nothing; how the call ended is for RecvMsg to tell.
 func (cs *clientStream) overErr(err error) error {
 	if cs.singleRequest {
-		return nil
+		cs.protected.Lock()
+		finishedByPeer := cs.protected.trailer != nil
+		cs.protected.Unlock()
+		if finishedByPeer {
+			return nil
+		}
 	}
 	return err
 }
